@@ -18,7 +18,14 @@ MANIFEST = {
                   "skip mdat mfhd tfhd tfdt trun mvhd tkhd sidx trex mdhd hdlr stts stsc stsz stco co64 stss sdtp ctts elst saiz saio sbgp prft tenc frma vmhd smhd nmhd sthd mfro mehd tfra pssh url avcC btrt pasp colr clap schm cslg senc(raw) emsg elng kind hvcC subs esds uuid sgpd and the field prefixes of stsd dref Visual/AudioSampleEntry, all versions and flag sets), C02_tree (at "
                   "EVERY node of a tree of those leaves, pure containers and unknown boxes: the encoder succeeds, writes size_box "
                   "bytes, and the size field it writes is size_box; container = 8 + sum of children, also under the moov child "
-                  "re-ordering), C02_encode_w / C02_encode_sw (both encode paths, conditional on success) and C02_encode_ok. "
+                  "re-ordering), C02_encode_w / C02_encode_sw (both encode paths, conditional on success) and C02_encode_ok; "
+                  "C02_decoded ('every structure obtained from the decoder', NO hypothesis on the tree: for EVERY slice the model "
+                  "of DecodeBoxSR accepts - whatever follows the box - with an exact tree, at EVERY node the encoder succeeds, "
+                  "writes Size() bytes and the size field it writes is Size(); Encode and EncodeSW both succeed with the same "
+                  "Size() bytes, as many as the decoder consumed; the same for every top-level box of the DecodeFileSR box loop. "
+                  "What size_ok asks in C02_tree - 4-character names, counts and sizes below 2^32 / 2^64 - is proved as an "
+                  "invariant of the decoder's recursion; exact_box is evaluated on every correspondence case, the count of "
+                  "cases it applied to is in the evidence: coverage.C02_decoded_applies_to). "
                   "Aggregates (coq/c02/C02AggTheorems.v), for ALL fragments / segments / init segments / files of the model (any "
                   "number and order of children in moof and traf, any trun flags, samples and write orders, optimisation on or off, "
                   "segment mode, box-tree mode and progressive files), whenever the model of Encode / EncodeSW succeeds: "
@@ -94,6 +101,24 @@ def build_agg_model():
     return amodel
 
 
+def proofs_all(ctx, files):
+    """ctx.proofs for both theorem files (the pattern of checks/c15.py).  Quick tier: the two re-checks (coqc of the
+    Theorems file + Print Assumptions audit; the .vo builds stay serialised by common's lock) run in two threads, then
+    ctx.proofs does its bookkeeping per file, in order, with the results already computed.  Thorough tier: strictly
+    sequential (ctx.proofs also runs coqchk, never two at once)."""
+    if ctx.tier != "quick":
+        return [ctx.proofs("c02", f) for f in files]
+    from concurrent.futures import ThreadPoolExecutor
+    orig = common.coq_check_theorems
+    with ThreadPoolExecutor(max_workers=2) as ex:
+        res = dict(zip(files, ex.map(lambda f: orig("c02", f), files)))
+    common.coq_check_theorems = lambda d, f, **kw: res[f] if (d == "c02" and f in res) else orig(d, f, **kw)
+    try:
+        return [ctx.proofs("c02", f) for f in files]
+    finally:
+        common.coq_check_theorems = orig
+
+
 def run_agg_corr(ctx, exe2, amodel, seed, n):
     """histories of Size/Info/Encode/EncodeSW on aggregates: real implementation vs extracted C02AggModel"""
     rc, cases, e = sh2([exe2, "corr", "-seed", str(seed), "-n", str(n)], timeout=3000)
@@ -150,12 +175,19 @@ def run(ctx):
     leaves, conts = c01check.model_names(model)
     ctx.notes["modelled_leaf_types"] = leaves
     ctx.notes["modelled_container_types"] = conts
-    pr = ctx.proofs("c02", "C02Theorems.v")
-    pra = ctx.proofs("c02", "C02AggTheorems.v")
+    pr, pra = proofs_all(ctx, ["C02Theorems.v", "C02AggTheorems.v"])
     n = ctx.n(5000, 150000)
     lines, mism = c01check.run_corr(ctx, exe1, model,
                                     ["-seed", str(ctx.seed + 1000), "-n", str(n), "-kinds", ",".join(leaves + conts)],
                                     "Size() / Encode / EncodeSW outcome and bytes vs size_box / encode_w / encode_sw of the model")
+    co = ctx.notes.get("correspondence", {})
+    ctx.notes["C02_decoded_applies_to"] = {
+        "what": "correspondence cases of this run on which the hypotheses of C02_decoded (model of DecodeBoxSR / the DecodeFileSR "
+                "box loop accepts, exact_box) were EVALUATED to true by the extracted model, and on which Size(), Encode and "
+                "EncodeSW of the real code agreed with the model (a disagreement is a mismatch above)",
+        "boxes_hypotheses_true": co.get("accepted_exact", 0), "boxes_accepted_not_exact": co.get("accepted_inexact", 0),
+        "files_hypotheses_true": co.get("whole_files", {}).get("accepted_exact", 0),
+        "files_accepted_not_exact": co.get("whole_files", {}).get("accepted_inexact", 0)}
     ns = ctx.n(4000, 120000)
     fails = c01check.run_search(ctx, exe1, ["-seed", str(ctx.seed), "-n", str(ns), "-dontcare", c01check.DONTCARE], "c02")
     node_evals = ctx.notes.get("search_evaluations", 0)
